@@ -432,6 +432,32 @@ let () =
         if not (verify_compat t s) || not (gv_ok repaired narrow32 t s g) then "ok"
         else oracle_value t s (denote LType t g) obs (Some g) in
       emit id model verdict
+    | [id; "live"; _; cdc; shape; sty; gv1; gv2; obs] ->
+      let s = shape_of_string shape and t = sty_of_string sty in
+      let g1 = gv_of_string gv1 and g2 = gv_of_string gv2 in
+      let enc_of (r : dm bres) = (match r with
+          | Ok d -> string_of_dm (canon cdc d)
+          | Err e -> if is_panic e then "panic:other" else "encerr") in
+      let reads (vt : dm bres) (vr : dm bres) fresh =
+        String.concat "|" ([view_str vt; view_str vr] @ (if fresh then [view_str vr] else []) @ [enc_of vr]) in
+      let model =
+        if not (verify_compat t s) then "panic:compat" else
+          "ok:" ^ reads (view !q LType t s g1) (view !q LRepr t s g1) false ^ ";"
+          ^ reads (view !q LType t s g2) (view !q LRepr t s g2) true in
+      let verdict =
+        if not (verify_compat t s && gv_ok repaired narrow32 t s g1 && gv_ok repaired narrow32 t s g2) then "ok" else
+          let want1 = reads (Ok (denote LType t g1)) (Ok (denote LRepr t g1)) false in
+          let want2 = reads (Ok (denote LType t g2)) (Ok (denote LRepr t g2)) true in
+          if obs = "ok:" ^ want1 ^ ";" ^ want2 then "ok" else
+            (match (if starts_with "ok:" obs then String.split_on_char ';' (after "ok:" obs) else []) with
+             | [o1; _] when o1 = want1 ->
+               (* the first reading was right; the same node no longer shows what the value holds *)
+               if gv_has_big_uint s g2 then "fail:bind_uint_kind_overflow"
+               else "fail:" ^ first_or "stale_view" (features t s)
+             | _ ->
+               if gv_has_big_uint s g1 || gv_has_big_uint s g2 then "fail:bind_uint_kind_overflow"
+               else "fail:" ^ first_or "view_mismatch" (features t s)) in
+      emit id model verdict
     | [id; "hist"; steps; obss] ->
       registry := registry0;
       let steps = String.split_on_char ';' steps in
